@@ -7,6 +7,7 @@ from mirsym.world import World, STATE_NAMES, TERMINAL
 from mirsym.harness import Violation, explore
 from . import scen
 
+T_ = "scheduler::process::task::Task"
 KINDS = ["Next", "Submit", "Back", "Cancel", "Abort", "Skip", "Error", "Push", "Remove", "SetProcessVars"]
 RANK = {"None": 0, "Ready": 1, "Pending": 1, "Interrupt": 1, "Running": 2}
 for _s in TERMINAL:
@@ -838,6 +839,129 @@ class Run:
                 if pred not in first_terminal or first_terminal[pred] > first_created[succ]:
                     self.viol("order:successor-before-predecessor-terminal:%s" % (self.node_attr(succ) or ("?",))[0], "%s was created before %s was terminal" % (succ, pred))
 
+    # ================================================================== C11 store image
+    def store_rows(self, which, pid):
+        """Rows of collection `which` ('tasks' | 'procs') whose pid matches, read through the real collection code."""
+        I = self.I
+        W = self.W
+        dtype = {"tasks": "store::data::task::Task", "procs": "store::data::proc::Proc"}[which]
+        coll = I.call_raw("store::store::Store::%s" % which, [Ptr(W.store.c, 0)], None)
+        q = I.call_raw("store::query::Query::new", [], None)
+        r = I.call_raw("<dyn store::DbCollection<Item = %s> as store::DbCollection>::query" % dtype, [Ptr(coll.c, 0), Ptr([q], 0)], None)
+        if r.d != 0:
+            raise Unsupported("store query failed")
+        pf = {f[0]: i for i, f in enumerate(I.p.src.struct_fields("PageData"))}
+        rows = r.f[0].f[pf["rows"]].a
+        names = [f[0] for f in I.p.src.struct_fields(dtype)]
+        out = []
+        for row in rows:
+            d = dict(zip(names, row.f))
+            key = d["pid"] if which == "tasks" else d["id"]
+            if key == pid:
+                out.append(d)
+        return out
+
+    def q_c11(self, where):
+        I = self.I
+        W = self.W
+        from mirsym.intr_core import struct_eq
+        if W.proc(self.pid) is None:
+            return  # the process has been removed from the cache (C17 looks at what remains)
+        self.res.witnesses += 1
+        live = W.tasks(self.proc)
+        rows = {r["tid"]: r for r in self.store_rows("tasks", self.pid)}
+        live_ids = set()
+        for t in live:
+            info = W.task_info(t)
+            live_ids.add(info["tid"])
+            want = I.call_raw(T_ + "::into_data", [Ptr([t], 0)], None)
+            if want.d != 0:
+                continue
+            want = want.f[0]
+            names = [f[0] for f in I.p.src.struct_fields("store::data::task::Task")]
+            row = rows.get(info["tid"])
+            if row is None:
+                self.viol("task-row-missing:%s" % info["kind"], "live task %s (%s) has no row in the store" % (info["nid"], info["state"]))
+                continue
+            for fn, a in zip(names, want.f):
+                b = row[fn]
+                eq = struct_eq(I, a, b)
+                if eq is True:
+                    continue
+                if eq is False or I.check_sat(z3.Not(eq)):
+                    self.viol("task-row-stale:%s:%s" % (fn, self.stale_cause(info, fn)), "stored %s of task %s (%s) differs from the live task: stored %s, live %s" % (
+                        fn, info["nid"], info["kind"], str(W.py(b))[:120], str(W.py(a))[:120]))
+        for tid in rows:
+            if tid not in live_ids:
+                self.viol("task-row-orphan", "the store has a task row %s that the live process does not know" % tid)
+        prow = self.store_rows("procs", self.pid)
+        if len(prow) != 1:
+            self.viol("proc-rows=%d" % len(prow), "%d process rows in the store for a live process" % len(prow))
+            return
+        want = I.call_raw("scheduler::process::process::Process::into_data", [Ptr([self.proc], 0)], None)
+        if want.d == 0:
+            names = [f[0] for f in I.p.src.struct_fields("store::data::proc::Proc")]
+            for fn, a in zip(names, want.f[0].f):
+                if fn == "model":
+                    continue
+                eq = struct_eq(I, a, prow[0][fn])
+                if eq is True:
+                    continue
+                if eq is False or I.check_sat(z3.Not(eq)):
+                    self.viol("proc-row-stale:%s" % fn, "stored process %s differs from the live process: stored %s, live %s" % (fn, str(W.py(prow[0][fn]))[:100], str(W.py(a))[:100]))
+
+    def stale_cause(self, info, fn):
+        if fn == "data":
+            return "ancestor-updated-by-descendant" if info["kind"] in ("Workflow", "Step", "Branch") or info["state"] == "Running" else info["kind"]
+        return info["kind"]
+
+    # ================================================================== C17 retention
+    def q_c17(self, where):
+        W = self.W
+        if not self.terminal_events():
+            return
+        self.res.witnesses += 1
+        trows = self.store_rows("tasks", self.pid)
+        prows = self.store_rows("procs", self.pid)
+        keep = bool(self.cfg.keep)
+        if not keep:
+            if trows:
+                self.viol("rows-left:tasks=%d" % len(trows), "%d task rows remain after the terminal event (default configuration)" % len(trows))
+            if prows:
+                self.viol("rows-left:proc", "the process row remains after the terminal event (default configuration)")
+        else:
+            if len(prows) != 1:
+                self.viol("keep:proc-rows=%d" % len(prows), "keep_processes: %d process rows after the terminal event" % len(prows))
+            live = self.tasks()
+            if len(trows) != len(live):
+                self.viol("keep:task-rows=%d/%d" % (len(trows), len(live)), "keep_processes: %d task rows for %d tasks" % (len(trows), len(live)))
+            ending = self.terminal_events()[0][1]["state"]
+            for r in prows:
+                st = W.py(r["state"])
+                if st != ending.lower():
+                    self.viol("keep:proc-state:%s/%s" % (st, ending), "stored process state %s, terminal event said %s" % (st, ending))
+            if ending in ("Completed",):
+                for r in trows:
+                    st = W.py(r["state"])
+                    if st.capitalize() not in TERMINAL and st != "interrupted" or st == "interrupted":
+                        if st not in [x.lower() for x in TERMINAL]:
+                            self.viol("keep:task-row-not-terminal:%s" % st, "stored task %s is %s after a completed ending" % (W.py(r["tid"]), st))
+
+    def e_c17(self):
+        W = self.W
+        if not self.terminal_events() or self.cfg.keep:
+            return
+        # every further action on the finished process is refused
+        ts = self.tasks()
+        acts = [t for t in ts if t["kind"] == "Act"]
+        if acts:
+            r = W.action(self.pid, acts[0]["tid"], "Next", {})
+            W.drain()
+            if r is not None and r.d == 0:
+                self.viol("action-accepted-after-removal", "an action on a removed process was accepted")
+            if self.store_rows("tasks", self.pid) or self.store_rows("procs", self.pid):
+                self.viol("rows-resurrected", "rows of a removed process reappeared after a refused action")
+
     # ================================================================== C05 admission
     def a_c05(self, t, kind, accepted, before, nmsg, ntrace):
         W = self.W
@@ -956,6 +1080,8 @@ class _RunAs:
         self.vn = vn
 
 
+STATE_MAP_R = {"none": "None", "ready": "Ready", "pending": "Pending", "running": "Running", "interrupted": "Interrupt", "completed": "Completed",
+               "submitted": "Submitted", "backed": "Backed", "cancelled": "Cancelled", "error": "Error", "aborted": "Aborted", "skipped": "Skipped", "removed": "Removed"}
 PACK_RUN_AS = {"acts.core.irq": "Irq", "acts.core.msg": "Msg"}
 
 
@@ -1035,6 +1161,34 @@ class ReplayRun(Run):
 
     def q_c02(self, where):
         pass
+
+    def q_c11(self, where):
+        pass
+
+    def r_c11(self, v, obs):
+        """Final quiescent state of the real engine: live dump (verif hook) against the rows of the memory store."""
+        for sn in list(obs.get("snapshots") or []) + [obs]:
+            self.c11_view(sn)
+
+    def c11_view(self, obs):
+        for lv in obs.get("live") or []:
+            if not lv:
+                continue
+            rows = {t["tid"]: t for t in obs.get("stored_tasks", []) if t["pid"] == lv["pid"]}
+            for t in lv["tasks"]:
+                r = rows.get(t["tid"])
+                info = dict(kind=t["kind"].capitalize(), state=STATE_MAP_R.get(t["state"], t["state"]))
+                if r is None:
+                    self.found.append(("task-row-missing:%s" % info["kind"], t["nid"]))
+                    continue
+                for fn in ("state", "prev", "data", "err", "start_time", "end_time"):
+                    if r.get(fn) != t.get(fn):
+                        self.found.append(("task-row-stale:%s:%s" % (fn, self.stale_cause(info, fn)), "%s: stored %r live %r" % (t["nid"], r.get(fn), t.get(fn))))
+            for p in obs.get("stored_procs", []):
+                if p["id"] == lv["pid"]:
+                    for fn in ("state", "env", "err"):
+                        if p.get(fn) != lv.get(fn):
+                            self.found.append(("proc-row-stale:%s" % fn, "stored %r live %r" % (p.get(fn), lv.get(fn))))
 
     def r_c04(self, v, obs):
         conc = {k: (int(x) if x not in ("True", "False") else x == "True") for k, x in (v.model or {}).items() if not k.startswith("act")}
